@@ -183,11 +183,23 @@ def analyse_get(F, R, getb, ctx, body, param, extents, depth=0):
             continue
         unchanged = lin_eq(nlin(pos), nlin(param))
         own = any(extent_is_len_of(e, recv) for e in extents)
-        if tag == ("Index", "index") or (tag == ("IndexContainer", "index") and unchanged and own):
+        std_get = tag[1] in ("get", "get_mut") and tag[0] in ("slice", "Vec", "array") and not ce.get("local")
+        if tag == ("Index", "index") or std_get or (tag == ("IndexContainer", "index") and unchanged and own):
             nsites += 1
             ok = unchanged and own
+            if std_get and ok and not get_is_failstop(body, bi):
+                # `get(i).or(fallback)`, `unwrap_or(..)`, a None arm that returns something: the
+                # checked lookup does not stop an out-of-range position
+                ok = False
+                R.check("R-BOUND", getb.label(), False, construct="checked get whose None outcome is fail-stop",
+                        where=where, detail="the Option returned by get() is not unwrapped / matched with a diverging None arm")
+                continue
             if ok:
                 good.add(bi)
+            if std_get and not ok:
+                # a checked lookup in some other container (the column vector of a row): fail-stop
+                # on its own, it just does not establish the bound against this item's extent
+                continue
             R.check("R-BOUND", getb.label(), ok,
                     construct="container-checked index into %s" % show(recv), where=where,
                     detail="position %s; len() returns %s" % (show(pos), [show(e) for e in extents]))
@@ -227,6 +239,61 @@ def analyse_get(F, R, getb, ctx, body, param, extents, depth=0):
             if flags and all(flags):
                 good.add(cb)
     return nsites, good
+
+
+def get_is_failstop(body, bi):
+    """the Option produced by the call in block bi is consumed by unwrap/expect/`?`, or branched on
+    with a None edge from which no return is reachable"""
+    t = body.term(bi)
+    dest = t["dest"]["l"]
+    # locals that hold (copies / refs of) the result
+    holders = {dest}
+    changed = True
+    while changed:
+        changed = False
+        for x in body.live_blocks():
+            for st in body.blocks[x]["stmts"]:
+                if st["k"] != "assign" or st["place"]["p"]:
+                    continue
+                rv = st["rv"]
+                src = None
+                if rv["k"] in ("use", "cast") and rv["op"]["k"] in ("copy", "move") and not rv["op"]["place"]["p"]:
+                    src = rv["op"]["place"]["l"]
+                elif rv["k"] == "ref" and not rv["place"]["p"]:
+                    src = rv["place"]["l"]
+                if src in holders and st["place"]["l"] not in holders:
+                    holders.add(st["place"]["l"])
+                    changed = True
+    ok_use = False
+    for x in sorted(body.live_blocks()):
+        tt = body.term(x)
+        if tt["k"] == "call" and tt["args"]:
+            a0 = tt["args"][0]
+            if a0["k"] in ("copy", "move") and not a0["place"]["p"] and a0["place"]["l"] in holders:
+                tg = callee_tag(tt.get("callee"))
+                if tg[1] in ("unwrap", "expect", "branch", "unwrap_unchecked"):
+                    ok_use = True
+                elif tg[1] in ("is_some", "is_none", "as_ref", "as_mut", "copied", "cloned", "map"):
+                    continue
+                else:
+                    return False  # or / unwrap_or / unwrap_or_else / ... : a substitute value
+        for st in body.blocks[x]["stmts"]:
+            if st["k"] == "assign" and st["rv"]["k"] == "discr" and not st["rv"]["place"]["p"] and \
+                    st["rv"]["place"]["l"] in holders:
+                # matched: the None arm (variant 0) must not reach a return
+                sw = body.term(x)
+                if sw["k"] == "switch":
+                    none_tgt = None
+                    for (v, tgt) in sw["arms"]:
+                        if v == "0":
+                            none_tgt = tgt
+                    if none_tgt is None:
+                        none_tgt = sw["otherwise"] if all(v != "0" for (v, _) in sw["arms"]) else None
+                    if none_tgt is not None and not body.can_return_avoiding(set(), frm=none_tgt):
+                        ok_use = True
+                    else:
+                        return False
+    return ok_use
 
 
 def mentions(t, sub):
@@ -341,6 +408,12 @@ def r_index_failstop(F, R):
                 recv = trees(ctx, ctx.org.operand(args[0]))
                 ok = recv == ("place", b.key, ("arg", 1), ())
                 sites.append((bi, ok, "std-checked index into %s" % show(recv)))
+            elif tag[1] == "get" and tag[0] in ("slice", "Vec", "array", "VecDeque"):
+                # `self.get(i)` returns None out of range: whatever is returned on the Some edge
+                # is a checked element
+                recv = trees(ctx, ctx.org.operand(args[0]))
+                ok = recv == ("place", b.key, ("arg", 1), ()) and get_is_failstop(b, bi)
+                sites.append((bi, ok, "std-checked get on %s (None outcome fail-stop: %s)" % (show(recv), ok)))
             elif tag in (("IndexContainer", "index"), ("IndexList", "index")):
                 sites.append((bi, True, "delegates to %s::index (checked as its own instance)" % tag[0]))
             elif tag == ("Stride", "index"):
